@@ -223,7 +223,27 @@ impl ChildCfg {
 
 fn cases_for(ty: &Ty, seed: u64, idx: usize, thorough: bool) -> Vec<Val> {
     let (cap, nrand) = if thorough { (120, 400) } else { (28, 20) };
-    let mut v = ty.boundary(cap);
+    // corpus first: `<type name>\t<value>` lines of corpus/C11/values.txt and of C11_EXTRA_VALUE
+    let mut v: Vec<Val> = Vec::new();
+    let mut lines: Vec<String> = Vec::new();
+    if let Ok(path) = std::env::var("C11_CORPUS") {
+        lines.extend(std::fs::read_to_string(path).unwrap_or_default().lines().map(|s| s.to_string()));
+    }
+    if let Ok(x) = std::env::var("C11_EXTRA_VALUE") {
+        lines.push(x);
+    }
+    for l in lines {
+        if let Some((n, val)) = l.split_once('\t') {
+            if n == ty.name() {
+                if let Some(x) = Val::parse(val.trim()) {
+                    if !v.contains(&x) {
+                        v.push(x);
+                    }
+                }
+            }
+        }
+    }
+    v.extend(ty.boundary(cap));
     let mut r = Rng::new(seed.wrapping_mul(1000003).wrapping_add(idx as u64));
     for k in 0..nrand {
         v.push(ty.random(&mut r, 2 + (k % 7) as u32));
@@ -780,7 +800,7 @@ fn run_child_until_done(args: &Args, idx: usize, log_dir: &std::path::Path, cras
     let mut gfrom = 0usize;
     let mut disabled: BTreeSet<String> = BTreeSet::new();
     let mut abort_count: BTreeMap<String, usize> = BTreeMap::new();
-    let timeout = std::time::Duration::from_secs(if args.thorough() { 900 } else { 240 });
+    let timeout = std::time::Duration::from_secs(if args.thorough() { 2400 } else { 600 });
     for _attempt in 0..400 {
         let mut child = std::process::Command::new(&exe)
             .arg("child")
@@ -792,6 +812,7 @@ fn run_child_until_done(args: &Args, idx: usize, log_dir: &std::path::Path, cras
             .arg(args.seed.to_string())
             .arg(&log)
             .arg(if disabled.is_empty() { "-".to_string() } else { disabled.iter().cloned().collect::<Vec<_>>().join(",") })
+            .env("C11_CORPUS", args.extra.get("corpus").cloned().unwrap_or_else(|| "/verif/corpus/C11/values.txt".to_string()))
             .stdout(std::process::Stdio::null())
             .stderr(std::fs::File::create(log_dir.join(format!("child-{}.err", idx))).map(std::process::Stdio::from).unwrap_or(std::process::Stdio::null()))
             .spawn()
@@ -1024,9 +1045,23 @@ fn replay(path: &str) {
     std::fs::create_dir_all(&dir).unwrap();
     let args = Args { tier: v["tier"].as_str().unwrap_or("quick").to_string(), seed: v["seed"].as_u64().unwrap_or(1), out: dir.clone(), replay: None, extra: BTreeMap::new(), rest: vec![] };
     let mut crashes = Vec::new();
-    let res = run_child_until_done(&args, idx, &dir, &mut crashes);
     let want = case["value"].as_str().unwrap_or("");
+    if let Some(name) = case["type"].as_str().or(case["stored"].as_str()) {
+        // SAFETY: single threaded at this point
+        unsafe { std::env::set_var("C11_EXTRA_VALUE", format!("{}\t{}", name, want)) };
+    }
+    let res = run_child_until_done(&args, idx, &dir, &mut crashes);
     println!("type {} ({})", res.name, res.tcode);
+    for (v, ok) in &res.picks {
+        if v == want {
+            println!("stored in a global: {}", if *ok { "OK" } else { "FAILED" });
+        }
+    }
+    for (v, r) in &res.regets {
+        if v == want {
+            println!("requested at its own type after a later load: {}", r);
+        }
+    }
     for (k, (val, routes)) in &res.cases {
         if val == want {
             println!("case {} value {}", k, val);
